@@ -41,6 +41,20 @@ Definition ty_binop (o : binop) (a b : ty) : option ty :=
   | BAnd | BOr => match a, b with TBool, TBool => Some TBool | _, _ => None end
   end.
 
+Definition ty_str1 (o : sop1) (t : ty) : option ty :=
+  match o, t with
+  | SLen, TStr => Some TInt                                      (* str_length : string -> int *)
+  | SOfInt, TInt => Some TStr                                    (* int_to_string : int -> string *)
+  | _, _ => None
+  end.
+Definition ty_str2 (o : sop2) (a b : ty) : option ty :=
+  match o, a, b with
+  | SPlus, TStr, TStr | SConcat, TStr, TStr => Some TStr         (* + on strings, str_concat *)
+  | SEquals, TStr, TStr | SContains, TStr, TStr => Some TBool
+  | SCharAt, TStr, TInt => Some TInt                             (* char_at : (string, int) -> int *)
+  | _, _, _ => None
+  end.
+
 Section Check.
 Variable F : sigs.
 Variable G : tenv.           (* globals *)
@@ -91,6 +105,17 @@ Fixpoint ty_expr (L : tenv) (e : expr) {struct e} : option ty :=
       | _, _ => None
       end
   | ELen a => match ty_expr L a with Some TArr => Some TInt | _ => None end
+  | EStr1 o a => match ty_expr L a with Some t => ty_str1 o t | None => None end
+  | EStr2 o a b =>
+      match ty_expr L a, ty_expr L b with
+      | Some ta, Some tb => ty_str2 o ta tb
+      | _, _ => None
+      end
+  | ESubstr a b c =>                                             (* str_substring : (string, int, int) -> string *)
+      match ty_expr L a, ty_expr L b, ty_expr L c with
+      | Some TStr, Some TInt, Some TInt => Some TStr
+      | _, _, _ => None
+      end
   end.
 
 Definition expr_has (L : tenv) (e : expr) (t : ty) : bool :=
